@@ -365,6 +365,10 @@ func (m *Monitor) checkAll(where string) {
 	for _, s := range m.claimHist.Classify(CheckClaims(m.ssn, m.Stats)) {
 		m.reportClaim(s)
 	}
+	// GPU-class claims: what a pod is charged for them, recomputed from its claims
+	for _, s := range CheckDraGpuRequests(m.ssn, m.Stats) {
+		m.report("C14", "dra-gpu-request", s)
+	}
 	// queue usage is updated by the proportion handler which runs before this one for the same event
 	for _, s := range CheckQueues(m.ssn, sched.CurrentProportion, m.Stats) {
 		if strings.HasPrefix(s, "task ") {
@@ -726,6 +730,7 @@ func (m *Monitor) accountingMismatches() map[string]string {
 	add(CheckJobs(m.ssn, scratch))
 	add(CheckQueues(m.ssn, sched.CurrentProportion, scratch))
 	add(m.claimHist.Classify(CheckClaims(m.ssn, scratch))) // DRA (dra.go)
+	add(CheckDraGpuRequests(m.ssn, scratch))
 	return out
 }
 
